@@ -1,6 +1,7 @@
 package server
 
 import (
+	"encoding/json"
 	"time"
 
 	"github.com/mimiro-io/datahub/internal/verifrt/engine"
@@ -30,7 +31,7 @@ func narrowPool() []int {
 
 func init() {
 	engine.RegisterCheck("C01", func(r *engine.Run) {
-		r.Rule = "SEQ: every sequence of write operations up to the stated depth over the stated alphabet is replayed on the real store (fresh names) and the complete latest-view observation (all page sizes, scoped/unscoped/unmerged lookups) is compared with the reference model; states are deduplicated by a canonical raw-key scan of the implementation; distinct = distinct canonical end states"
+		r.Rule = "SEQ: every sequence of write operations up to the stated depth over the stated alphabet is replayed on the real store (fresh names) and the complete latest-view observation (all page sizes, scoped/unscoped/unmerged lookups) is compared with the reference model; states are deduplicated by a canonical raw-key scan of the implementation; the alphabet also has writes the store must refuse as a whole, and a second search (the replay of C07) has datasets created and deleted between the writes; distinct = distinct canonical end states"
 		r.Assumptions = []string{"badger transactions are linearizable", "alphabet: 2 datasets, ids e1,e2(,e3 as ref target), content pool incl. equal-length pairs"}
 		ids2 := []string{"e1", "e2"}
 		wide := vWriteAlphabet(vDS, ids2, allPool(), poolIdx("v1", "v2", "dv1", "r2", "d", "v1pad", "dv2", "psa", "pas"), [][2]int{{0, 1}, {2, 0}, {0, 2}, {3, 3}})
@@ -41,13 +42,30 @@ func init() {
 			wide = append(wide, VOp{K: "badbatch", DS: "A", Ents: []VEnt{{"e1", c}, {"e2", c}}})
 		}
 		narrow = append(narrow, VOp{K: "badtxn", Parts: map[string][]VEnt{"A": {{"e1", poolIdx("v1")[0]}}, "B": {{"e2", poolIdx("v1")[0]}}}})
+		// the latest view next to deleted (not yet collected) datasets: the replay of C07 with an alphabet of its own
+		{
+			pi := func(n string) int { return poolIdx(n)[0] }
+			da := []VOp{
+				{K: "create", DS: "A"}, {K: "create", DS: "B"}, {K: "delete", DS: "A"}, {K: "delete", DS: "B"},
+				{K: "batch", DS: "A", Ents: []VEnt{{"e1", pi("v2r2")}}},
+				{K: "batch", DS: "B", Ents: []VEnt{{"e1", pi("dv1")}}},
+				{K: "batch", DS: "B", Ents: []VEnt{{"e1", pi("v1")}, {"e2", pi("r1")}}},
+				{K: "batch", DS: "S", Ents: []VEnt{{"e1", pi("v2")}}},
+			}
+			dp, _ := json.Marshal(DsmParams{Obs: []string{"c07"}, Names: []string{"A", "B"}, IDs: vIDs})
+			dd, db := 5, 90*time.Second
+			if !r.Quick() {
+				dd, db = 7, 30*time.Minute
+			}
+			engine.RunSeq(r, engine.SeqSpec{Name: "c01-next-to-deleted-datasets", WorkerArgs: []string{"worker", "dsm"}, Alphabet: vOpsJSON(da), Params: dp, Depth: dd, Budget: db})
+		}
 		params := storeParams("c01", vDS, vIDs)
 		if r.Quick() {
 			engine.RunSeq(r, engine.SeqSpec{Name: "c01-wide", WorkerArgs: []string{"worker", "store"}, Alphabet: vOpsJSON(wide), Params: params, Depth: 2, Budget: 60 * time.Second})
 			engine.RunSeq(r, engine.SeqSpec{Name: "c01-narrow", WorkerArgs: []string{"worker", "store"}, Alphabet: vOpsJSON(narrow), Params: params, Depth: 3, Budget: 60 * time.Second})
 			// writers that overlap in time: whatever the order, listing, scoped and unscoped lookup agree on one last version
 			for _, sc := range c05Scenarios() {
-				if sc.Name == "S1-two-batches-same-ids" || sc.Name == "S15-txn-waiting-for-a-lock-vs-batch-on-the-same-entity" {
+				if sc.Name == "S1-two-batches-same-ids" || sc.Name == "S15-txn-waiting-for-a-lock-vs-batch-on-the-same-entity" || sc.Name == "S12-rejected-batch-vs-writers-of-new-ids" {
 					sc.Name = "C01-" + sc.Name
 					engine.RunSched(r, engine.SchedSpec{Name: sc.Name, WorkerArgs: []string{"worker", "sched-store"}, Scenario: sc, Bound: 2, Horizon: 1500, BudgetS: 60})
 				}
